@@ -175,6 +175,42 @@ def manufacture(rng, alg):
                   "alpha": _P(rng, [1.0, 1.5, 0.5]), "solver": "matrix", "x0": rl(xs)}
         kkt = {"x": rl(xs), "z": [rl(z) for z in zs], "zold": [rl(z) for z in zs], "u": [rl(y / r) for y, r in zip(ys, rho)]}
         return recipe, kkt, np.asarray(rl(xs))
+    if alg == "admm" and rng.integers(0, 5) == 0:
+        # DFT-domain block solvers.  x of shape (K, n), A = Sum o CircularConvolve, one identity constraint with g = w ||.||^2:
+        #   FBlock : min  om ||A x - y||^2 + w ||x||^2                (f = om ||A . - y||^2)
+        #   G0Block: f = 0, g_1 = om ||. - y||^2 on C_1 = A, g_2 = w ||.||^2 on C_2 = I; the x-step of the solver's docstring
+        #            weights the first term by rho_1 * om, so for om != 1/2 the fixed point is that of the problem with g_1
+        #            scaled by 2 om (known finding C10 g0-scale) - the manufactured point is the fixed point of the DOCUMENTED
+        #            x-step; trajectories (standard-ADMM monitors) only for om = 1/2
+        kind = _P(rng, ["fblock", "g0block"])
+        K, nn = int(rng.integers(2, 4)), int(rng.integers(3, 6))
+        A = {"t": "sumconv", "h": G.dy(rng, (K, int(rng.integers(2, 4))), 2, 1.5).tolist()}
+        MA = np.asarray(G.op_dense(A, [K, nn])[0])
+        om = _P(rng, [0.5, 0.5, 1.0, 2.0])
+        w = _P(rng, [0.5, 1.0, 2.0])
+        rho1 = _P(rng, [0.4, 1.0, 2.5])
+        rres = G.dy(rng, (nn,), 2, 1.5)  # residual A x* - y at the optimum
+        fac = om if kind == "fblock" else 2.0 * om * om  # stationarity: 2 fac A^T r + 2 w x* = 0
+        xs = -(fac / w) * (MA.T @ rres)
+        ydata = MA @ xs - rres
+        loss = {"k": "sqloss", "s": om, "A": None, "yshape": [nn], "y": ydata.tolist()}
+        alpha = _P(rng, [1.0, 1.0, 1.5, 0.5])
+        if kind == "fblock":
+            rho = [rho1]
+            recipe = {"alg": "admm", "cplx": False, "xshape": [K, nn], "C": [{"t": "id"}], "g": [{"k": "sql2", "w": w}],
+                      "f": dict(loss, A=A), "rho": rho, "alpha": alpha, "solver": "fblock", "x0": xs.tolist()}
+            zs, ys = [xs], [2.0 * w * xs]
+        else:
+            rho = [rho1, _P(rng, [0.5, 1.0, 2.0])]
+            recipe = {"alg": "admm", "cplx": False, "xshape": [K, nn], "C": [A, {"t": "id"}], "g": [loss, {"k": "sql2", "w": w}],
+                      "f": None, "rho": rho, "alpha": alpha, "solver": "g0block", "x0": xs.tolist(),
+                      "xweights": [2.0 * om, 1.0]}
+            zs, ys = [MA @ xs, xs], [2.0 * om * rres, 2.0 * w * xs]
+        if rng.integers(0, 2):
+            recipe["reuse"] = {"y": G.dy(rng, (nn,), 2, 2.0).tolist(), "s": _P(rng, [0.5, 1.0, 2.0])}
+        kkt = {"x": xs.tolist(), "z": [z.tolist() for z in zs], "zold": [z.tolist() for z in zs],
+               "u": [(y / r).tolist() for y, r in zip(ys, rho)]}
+        return recipe, kkt, xs
     if alg == "admm":
         N = int(rng.integers(1, 4))
         # x* must be compatible with non-negativity constraints: use identity-like operators for those
@@ -205,6 +241,9 @@ def manufacture(rng, alg):
                   "alpha": alpha, "solver": "circ" if circ else _P(rng, ["linear", "linear-jax"]), "x0": xs.tolist()}
         us = [(y / r).tolist() for y, r in zip(ys, rho)]
         kkt = {"x": xs.tolist(), "z": [z.tolist() for z in zs], "zold": [z.tolist() for z in zs], "u": us}
+        if rng.integers(0, 2):
+            # helper-reuse history: the sub-problem solver object first serves another problem (other data and scale)
+            recipe["reuse"] = {"y": G.dy(rng, (n,), 2, 2.0).tolist(), "s": _P(rng, [0.5, 1.0, 2.0, 0.25])}
         return recipe, kkt, xs
     if alg in ("ladmm", "padmm", "pdhg") and rng.integers(0, 4) == 0:
         # complex data (fixed-point part): the adjoints are CONJUGATE transposes, B and c general for ProximalADMM
@@ -390,6 +429,8 @@ def manufacture(rng, alg):
             recipe["pol"] = {"kind": kind, "real": True}
             if kind == "adaptiveBB":
                 recipe["pol"]["kappa"] = 0.5
+            if rng.integers(0, 2):
+                recipe["reuse"] = {"y": G.dy(rng, (n,), 2, 2.0).tolist(), "L0": 4.0 * L0}
         elif rng.integers(0, 2):
             # history: a second solver with the default step-size object and a far too small L0 is constructed afterwards
             # and stays alive; it must not influence this one (see steps_gen.Built)
@@ -576,7 +617,7 @@ def lyapunov_monitors(ctx, recipe, kkt, xs, states, fobjs, b):
     m_f = 2.0 * float(fr["s"]) if fr.get("k") == "sqloss" and fr.get("A") is None and fr.get("W") is None else 0.0
     if alg == "admm" and 0.0 < recipe["alpha"] < 2.0:
         al = float(recipe["alpha"])
-        Ms = [dense(c, [n]) for c in recipe["C"]]
+        Ms = [dense(c, recipe["xshape"]) for c in recipe["C"]]
         rho = [float(r) for r in recipe["rho"]]
         m = m_f
         zs = [A_(z) for z in kkt["z"]]
@@ -696,6 +737,12 @@ BUDGET = {"admm": 300, "ladmm": 1500, "padmm": 3000, "nlpadmm": 3000, "pdhg": 20
 def one(ctx, model, rng, alg, recipe, kkt, xs, traj, tag):
     # non-linear C / H make the problem non-convex: only the fixed-point part of the property applies
     nonconvex = False
+    if alg == "admm" and recipe.get("solver") in ("fblock", "g0block"):
+        ctx.count("admm.block-solver:" + recipe["solver"] + (":omega=1/2" if (recipe["g"][0] if recipe["solver"] == "g0block" else recipe["f"])["s"] == 0.5 else ":omega!=1/2"))
+        if recipe["solver"] == "g0block" and recipe["g"][0]["s"] != 0.5:
+            traj, nonconvex = False, True  # not the standard ADMM x-step (C10 g0-scale): fixed point of the documented x-step only
+    if recipe.get("reuse") is not None:
+        ctx.count("history:helper-object-reused")
     if alg == "admm" and recipe.get("cplx"):
         ctx.count("admm.complex-mixed-matrix-solver")
     if recipe.get("cplx"):
